@@ -73,3 +73,31 @@ def cancellation_controls(ctx):
     fx = ctx.fixtures()
     res = {fn: bool(cancellation.scan_function(fx, fn)) for fn in ("shs_half_angle", "shs_one_minus_cos", "polar_radius_half_angle", "polar_radius_one_minus_sin", "ang_dist_atan2", "ang_dist_acos")}
     ctx.control("cancellation-lint-on-fixtures", res == {"shs_half_angle": False, "shs_one_minus_cos": True, "polar_radius_half_angle": False, "polar_radius_one_minus_sin": True, "ang_dist_atan2": False, "ang_dist_acos": True}, "got %s" % res)
+
+
+def feval_controls(ctx):
+    """the formula reader on hand-made terms: integer wrap at the width of the type, saturating
+    float -> int casts, leading_zeros, fmod, a gated merge; and the range reader on a gated merge"""
+    import math
+    from sym import C
+    from mir import f64_to_bits
+    from rules.common import feval, frange_facts
+    F = lambda v: ('c', 'f64', f64_to_bits(v))
+    x = ('p', 'x')
+    class E: phi_gate = {}; phi_ops = {}
+    e = E()
+    t1 = ('op', 'shl', 'i32', ('cast', 'int_to_int', 'i32', x), C('u8', 29))
+    ctx.control("feval:i32-shift-wraps", feval(t1, {x: 4}, e) == -(1 << 31) and feval(t1, {x: 3}, e) == 3 << 29, "(x as i32) << 29 at 4 and 3")
+    t2 = ('cast', 'float_to_int', 'u8', ('op', 'mul', 'f64', F(2.0), x))
+    ctx.control("feval:float-to-int-saturates", [feval(t2, {x: v}, e) for v in (0.25, 0.5, 1.0, 200.0, -3.0)] == [0, 1, 2, 255, 0], "(2.0 * x) as u8")
+    t3 = ('call', 'core::num::<impl u64>::leading_zeros', (('op', 'bitxor', 'u64', x, C('u64', 5)),))
+    ctx.control("feval:leading-zeros", feval(t3, {x: 4}, e) == 63 and feval(t3, {x: 5}, e) == 64, "leading_zeros(x ^ 5)")
+    t4 = ('op', 'rem', 'f64', x, F(1.5))
+    ctx.control("feval:fmod-keeps-sign", feval(t4, {x: -2.0}, e) == -0.5 and feval(t4, {x: 2.0}, e) == 0.5, "x % 1.5")
+    phi = ('phi', 'control')
+    a2 = ('call', 'f64::atan2', (('p', 'y'), x))
+    e.phi_gate = {phi: (('op', 'lt', 'f64', a2, F(0.0)), ('op', 'add', 'f64', a2, F(2 * math.pi)), a2)}
+    r = frange_facts(phi, {}, set(), eng=e)
+    ctx.control("frange:gated-merge", r is not None and abs(r[0]) < 1e-12 and abs(r[1] - 2 * math.pi) < 1e-12, "atan2 + 2pi if negative: %s" % (r,))
+    r2 = frange_facts(('op', 'rem', 'f64', x, F(2 * math.pi)), {x: (-float('inf'), float('inf'))}, set(), eng=e)
+    ctx.control("frange:rem-keeps-sign", r2 is not None and r2[0] < 0, "x %% 2pi over all x: %s" % (r2,))
